@@ -514,6 +514,9 @@ CORPUS["C20"] = [
     M("square field arrays are transposed", (ANT, "    V_sig = Nants * voltage_from_field(Efield, freqs, gain)", "    if Efield.shape[0] == freqs.size:\n        Efield = np.swapaxes(Efield, 0, 1)\n    V_sig = Nants * voltage_from_field(Efield, freqs, gain)")),
     B("frequency sum over the first axis of the transposed voltages", (ANT, "    V_sigsum = np.sum(V_sig, axis=1)", "    V_sigsum = np.sum(V_sig.T, axis=0)")),
     B("energy scaling with an added axis instead of two transposes", (RADIO, "EFields[mask] = (EFields[mask].T * showerEnergy[mask] / 10.0).T", "EFields[mask] = EFields[mask] * showerEnergy[mask][:, None] / 10.0")),
+    M("np.place fed the unselected view angles (consumed by position)", (RADIO, "        viewAngles[mask] = self.get_decay_view(theta[mask], pathLen[mask], lenDec[mask])\n", "        np.place(viewAngles, mask, self.get_decay_view(theta, pathLen, lenDec))\n")),
+    B("np.place fed the selected view angles", (RADIO, "        viewAngles[mask] = self.get_decay_view(theta[mask], pathLen[mask], lenDec[mask])\n", "        np.place(viewAngles, mask, self.get_decay_view(theta[mask], pathLen[mask], lenDec[mask]))\n")),
+    B("np.putmask with view angles of every event", (RADIO, "        viewAngles[mask] = self.get_decay_view(theta[mask], pathLen[mask], lenDec[mask])\n", "        np.putmask(viewAngles, mask, self.get_decay_view(theta, pathLen, lenDec))\n")),
     M("signal scales with sqrt(Nants)", (ANT, "    V_sig = Nants * voltage_from_field(Efield, freqs, gain)", "    V_sig = np.sqrt(Nants) * voltage_from_field(Efield, freqs, gain)")),
     M("field quadratic in the shower energy", (RADIO, "EFields[mask] = (EFields[mask].T * showerEnergy[mask] / 10.0).T", "EFields[mask] = (EFields[mask].T * showerEnergy[mask] ** 2 / 10.0).T")),
     M("energy scaling applied twice", (RADIO, "        distScale = np.abs(zhairesDist / nssDist)", "        distScale = np.abs(zhairesDist / nssDist) * showerEnergy[mask]")),
